@@ -2,7 +2,7 @@
 
     Statements only; proofs in [Farm/Rewards.v] (on top of the invariant of [Farm/Proofs.v]).
     [reachable s] as in C05: any history from any genesis with an empty farm account. *)
-From Irismod Require Import Farm.Model Farm.Check Farm.Proofs Farm.Rewards Farm.Refund Farm.Budget.
+From Irismod Require Import Farm.Model Farm.Check Farm.Proofs Farm.Rewards Farm.Refund Farm.Budget Farm.Sound Farm.History Farm.Sound6 Farm.ProRata Farm.SoundTrace.
 
 (** RELEASE.  Every successful updatePool (each of stake, unstake, harvest, adjust, destroy and the
     end blocker goes through it), at any height, on any pool and ledger: the reward released for a
@@ -140,6 +140,115 @@ Theorem budget_identity_step :
 Proof. intros s st pid p R. exact (budget_step_lemma s st pid p (reachable_inv _ R)). Qed.
 Print Assumptions budget_identity_step.
 
+(** BUDGET IDENTITY over whole histories, with the ghost "released so far".  [released_so_far] adds up, step by
+    step, per-block * (blocks since the last distribution while staked) ([Check.released], the checker's own
+    function, applied to the pool before and after the step); [refunded_so_far] adds up what remains at a refund
+    event ([Check.refund_event]).  Neither looks at the remaining budget after the step, so the identity is not
+    true by construction.  For every pool and denomination, over ANY history from a reachable state: *)
+Theorem budget_identity :
+  forall (steps : list step) (s : state) (pid : Z) (d : denom),
+    reachable s -> Forall valid_step steps ->
+    funded (pools (run s steps)) pid d
+    = remaining (pools (run s steps)) pid d
+      + (funded (pools s) pid d - remaining (pools s) pid d)
+      + released_so_far s steps pid d + refunded_so_far s steps pid d.
+Proof. intros steps s pid d R. exact (budget_identity_lemma steps s pid d (reachable_inv _ R)). Qed.
+Print Assumptions budget_identity.
+
+(** ... in particular from genesis: total funded = remaining + released + refunded, always. *)
+Corollary budget_identity_from_genesis :
+  forall (b : ledger) (h : Z) (steps : list step) (pid : Z) (d : denom),
+    genesis_ok b h -> Forall valid_step steps ->
+    funded (pools (run (init b h) steps)) pid d
+    = remaining (pools (run (init b h) steps)) pid d
+      + released_so_far (init b h) steps pid d + refunded_so_far (init b h) steps pid d.
+Proof.
+  intros b h steps pid d G Hv. rewrite (budget_identity_lemma steps (init b h) pid d (inv_init b h G) Hv).
+  unfold funded, remaining. simpl. lia.
+Qed.
+Print Assumptions budget_identity_from_genesis.
+
+(** ... and every term is non-negative: released never exceeds funded, nor does refunded or remaining. *)
+Corollary released_never_exceeds_funded :
+  forall (b : ledger) (h : Z) (steps : list step) (pid : Z) (d : denom),
+    genesis_ok b h -> Forall valid_step steps ->
+    0 <= released_so_far (init b h) steps pid d <= funded (pools (run (init b h) steps)) pid d
+    /\ 0 <= refunded_so_far (init b h) steps pid d <= funded (pools (run (init b h) steps)) pid d
+    /\ 0 <= remaining (pools (run (init b h) steps)) pid d <= funded (pools (run (init b h) steps)) pid d.
+Proof. exact released_le_funded. Qed.
+Print Assumptions released_never_exceeds_funded.
+
+(** REFUND over whole histories.  [refund_count] counts the steps of a history that are a refund event for the pool
+    (the end blocker with the pool's entry due, or a successful DestroyPool).  Never both, never twice: *)
+Theorem refund_never_twice :
+  forall (steps : list step) (s : state) (pid : Z),
+    reachable s -> Forall valid_step steps -> 0 <= refund_count s steps pid <= 1.
+Proof. intros steps s pid R. exact (refund_at_most_once steps s pid (reachable_inv _ R)). Qed.
+Print Assumptions refund_never_twice.
+
+(** ... and exactly one: a queued pool (every pool is queued when created) either is still queued and has had no
+    refund event, or has left the queue and has had exactly one. *)
+Theorem refund_exactly_once_over_histories :
+  forall (steps : list step) (s : state) (pid : Z),
+    reachable s -> Forall valid_step steps -> queued s pid ->
+    (refund_count s steps pid = 0 /\ queued (run s steps) pid)
+    \/ (refund_count s steps pid = 1 /\ unqueued (run s steps) pid).
+Proof. intros steps s pid R. exact (refund_exactly_once_hist steps s pid (reachable_inv _ R)). Qed.
+Print Assumptions refund_exactly_once_over_histories.
+
+(** non-vacuity of [queued] and of the ghosts: a pool of budget 1000 (1 per block), one farmer; two blocks are
+    released, the creator destroys the pool and is refunded 998: one refund event, 1000 = 0 + 2 + 998. *)
+Example c06_history_nonvacuous :
+  let bk : ledger := fold_left (fun l a => fold_left (fun l' d => credit l' a d 1000000) [0; 1; 2; 3] l) [0; 1; 2] [] in
+  let s1 := run (init bk 2) [Msg (CreatePool 0 0 2 true [(3, 1000, 1)]); NextBlock; Msg (Stake 1 1 0 2)] in
+  let steps := [NextBlock; NextBlock; Msg (Harvest 1 1); Msg (Destroy 0 1); NextBlock; Msg (Unstake 1 1 0 2)] in
+  queued s1 1 /\ Forall valid_step steps
+  /\ (refund_count s1 steps 1, released_so_far s1 steps 1 3, refunded_so_far s1 steps 1 3,
+      funded (pools (run s1 steps)) 1 3, remaining (pools (run s1 steps)) 1 3) = (1, 2, 998, 1000, 0).
+Proof.
+  cbv zeta. split; [|split].
+  - eexists. split; vm_compute; reflexivity.
+  - repeat constructor; discriminate.
+  - vm_compute. reflexivity.
+Qed.
+
+(** The decidable C06 step predicate the check evaluates on the IMPLEMENTATION's observations ([c06_step]: clauses
+    10-14 budgets rule by rule, 11 new pools, 15 every observed actor's balance, 16 the reward collector, 17 the
+    schedule) returns 0 on the MODEL's own observations at every step of every history. *)
+Theorem c06_checker_predicate_holds_on_the_model :
+  forall (s : state) (st : step) (oc0 : outcome) (rw0 : list (denom * Z)),
+    reachable s -> valid_step st -> (match st with Msg m => In (sender m) actors | NextBlock => True end) ->
+    c06_step (height s) (obs_of s oc0 rw0) st (obs_after s st) = 0.
+Proof. intros s st oc0 rw0 R. exact (model_passes_c06 s st oc0 rw0 (reachable_inv _ R)). Qed.
+Print Assumptions c06_checker_predicate_holds_on_the_model.
+
+(** MODEL PASSES CHECK for C06: on the trace the model itself produces for any history, [check_case_C06] reports no
+    divergence and none of the clauses 10-17; the only other possible answer is clause 18 (the fair-share fold in exact
+    rationals), whose content is proved separately in units of 10^-18 ([payout_close_to_fair_share_on_histories]). *)
+Theorem model_passes_check_C06 :
+  forall (h0 : Z) (bl : list (acct * list Z)) (steps : list step),
+    genesis_ok (ledger_of bl) h0 -> bals_of (ledger_of bl) = bl ->
+    Forall valid_step steps -> Forall actor_step steps ->
+    let c := model_case h0 bl steps [] in
+    check_case_C06 c = (-1, -1, 0) \/ check_case_C06 c = (-1, n_steps c, 18).
+Proof. exact model_passes_check_C06_lemma. Qed.
+Print Assumptions model_passes_check_C06.
+
+(** The duration AdjustPool computes (availableHeight) is never negative (imported by the queues group). *)
+Theorem adjust_duration_is_nonnegative :
+  forall (s : state) (who : acct) (pid : Z) (add rpb : list (denom * Z)) (s' : state) (rw : list (denom * Z)),
+    reachable s -> adjust s who pid add rpb = Done s' rw ->
+    exists p p1 b1 iv,
+      let started := p_start p <=? height s in
+      let start_h := if started then height s else p_start p in
+      get pid (pools s) = Some p /\ update_pool (height s) (bank s) p 0 false = (p1, b1, true)
+      /\ min_interval (map (fun r => (adj_avail started (p_end p1 - start_h) add r, r_pb (adj_pb rpb r)))
+                           (map (adj_topup add) (p_rules p1))) = Some iv
+      /\ 0 <= iv
+      /\ exists p', get pid (pools s') = Some p' /\ p_end p' = start_h + iv.
+Proof. intros s who pid add rpb s' rw R. exact (adjust_duration_nonneg s who pid add rpb s' rw (reachable_inv _ R)). Qed.
+Print Assumptions adjust_duration_is_nonnegative.
+
 (** PRO RATA.  One farmer and one rule, over ANY list of events: [Accrue dr] (the per-share value
     grows by dr >= 0; the farmer's exact share, in units of 10^-18, grows by dr * stake) and
     [Act delta] (a stake / harvest / unstake of his: he is paid [pay_of], his debt becomes [new_debt] —
@@ -177,6 +286,65 @@ Theorem cacl_rewards_is_act :
     /\ nth i db 0 = new_debt (r_rps r) l (nth i ds 0) delta.
 Proof. exact cacl_is_act. Qed.
 Print Assumptions cacl_rewards_is_act.
+
+(** PRO RATA on histories of the model.  [paid_in], [fair_in], [acts_in] are read off the history itself: the reward
+    coin of the rule's denomination in the responses of the farmer's successful stake / harvest / unstake on the pool;
+    (growth of the rule's per-share value in the step) * (the stake he held before it); the number of those
+    interactions.  ([ProRata.sim_run] shows that the history, projected by [ProRata.events], drives the event
+    abstraction above step for step.)  From any reachable state in which the pool exists, the rule is its j-th and the
+    farmer holds no stake in it, over ANY further history: *)
+Theorem payout_close_to_fair_share_on_histories :
+  forall (w pid : Z) (j : nat) (steps : list step) (s : state) (r : rule),
+    reachable s -> Forall valid_step steps -> rule_j pid j s = Some r -> rec_of w pid s = None ->
+    hist_sum (paid_in w pid j) s steps * P18 <= hist_sum (fair_in w pid j) s steps
+    /\ (rec_of w pid (run s steps) = None ->
+        hist_sum (fair_in w pid j) s steps - hist_sum (paid_in w pid j) s steps * P18
+        <= hist_sum (acts_in w pid) s steps * (P18 - 1)).
+Proof. intros w pid j steps s r R. exact (payout_model_lemma w pid j steps s r (reachable_inv _ R)). Qed.
+Print Assumptions payout_close_to_fair_share_on_histories.
+
+(** ... and the same without assuming that the pool or the rule exists at the start: from every reachable state in
+    which the farmer holds no stake in pool [pid] — in particular from genesis — for every pool id and rule position. *)
+Theorem payout_close_to_fair_share_from_genesis :
+  forall (w pid : Z) (j : nat) (b : ledger) (h : Z) (steps : list step),
+    genesis_ok b h -> Forall valid_step steps ->
+    hist_sum (paid_in w pid j) (init b h) steps * P18 <= hist_sum (fair_in w pid j) (init b h) steps
+    /\ (rec_of w pid (run (init b h) steps) = None ->
+        hist_sum (fair_in w pid j) (init b h) steps - hist_sum (paid_in w pid j) (init b h) steps * P18
+        <= hist_sum (acts_in w pid) (init b h) steps * (P18 - 1)).
+Proof.
+  intros w pid j b h steps G Hv. exact (payout_general_lemma w pid j steps (init b h) (inv_init b h G) Hv eq_refl).
+Qed.
+Print Assumptions payout_close_to_fair_share_from_genesis.
+
+Theorem harvest_frequency_independent_on_histories :
+  forall (w pid : Z) (j : nat) (steps1 : list step) (s1 : state) (r1 : rule) (steps2 : list step) (s2 : state) (r2 : rule),
+    reachable s1 -> Forall valid_step steps1 -> rule_j pid j s1 = Some r1 -> rec_of w pid s1 = None ->
+    reachable s2 -> Forall valid_step steps2 -> rule_j pid j s2 = Some r2 -> rec_of w pid s2 = None ->
+    rec_of w pid (run s1 steps1) = None -> rec_of w pid (run s2 steps2) = None ->
+    hist_sum (fair_in w pid j) s1 steps1 = hist_sum (fair_in w pid j) s2 steps2 ->
+    - (hist_sum (acts_in w pid) s1 steps1 * (P18 - 1))
+    <= (hist_sum (paid_in w pid j) s1 steps1 - hist_sum (paid_in w pid j) s2 steps2) * P18
+    <= hist_sum (acts_in w pid) s2 steps2 * (P18 - 1).
+Proof.
+  intros w pid j steps1 s1 r1 steps2 s2 r2 R1 V1 J1 N1 R2. 
+  exact (harvest_frequency_model_lemma w pid j steps1 s1 r1 steps2 s2 r2 (reachable_inv _ R1) V1 J1 N1 (reachable_inv _ R2)).
+Qed.
+Print Assumptions harvest_frequency_independent_on_histories.
+
+(** non-vacuity: farmer 2 joins farmer 1 (stake 1 next to 2) in a pool paying 1 per block, harvests once and leaves:
+    exact share 2.33..., paid 1, three interactions; the hypotheses hold of the state the history starts from. *)
+Example c06_prorata_nonvacuous :
+  let bk : ledger := fold_left (fun l a => fold_left (fun l' d => credit l' a d 1000000) [0; 1; 2; 3] l) [0; 1; 2] [] in
+  let s1 := run (init bk 2) [Msg (CreatePool 0 0 2 true [(3, 1000, 1)]); NextBlock; Msg (Stake 1 1 0 2)] in
+  let steps := [NextBlock; Msg (Stake 2 1 0 1); NextBlock; NextBlock; NextBlock; NextBlock; Msg (Harvest 2 1);
+                NextBlock; NextBlock; NextBlock; Msg (Unstake 2 1 0 1); NextBlock] in
+  (exists r, rule_j 1 0 s1 = Some r) /\ rec_of 2 1 s1 = None /\ rec_of 2 1 (run s1 steps) = None
+  /\ (hist_sum (paid_in 2 1 0) s1 steps, hist_sum (fair_in 2 1 0) s1 steps, hist_sum (acts_in 2 1) s1 steps)
+     = (1, 2333333333333333333, 3).
+Proof.
+  cbv zeta. split; [eexists; vm_compute; reflexivity|]. split; [vm_compute; reflexivity|]. split; vm_compute; reflexivity.
+Qed.
 
 (** non-vacuity: a valid event list with fractional per-share values; the farmer leaves having been
     paid 6 of an exact share of 6.66..., after 4 interactions *)
